@@ -260,6 +260,20 @@ Definition ct_prop_ok (c : ctobs) : bool :=
   (if c_kind c =? 0 then Nat.eqb (c_under c) (c_conns c * c_closers c)
    else Z.eqb (c_active c) 0%Z && Nat.eqb (c_total c) (c_conns c)).
 
+(* ---- byte counters (conntrack Observer) ---- *)
+Record bobs := mkbobs {
+  b_ops : list (N * N);   (* per call through the tracking wrapper: (0 Read | 1 Write | 2 ReadFrom, n returned) *)
+  b_rx : N; b_tx : N;     (* Observer.Rx(), Observer.Tx() *)
+  b_peer_sent : N; b_peer_got : N
+}.
+(* conn.Read adds n to rx; conn.Write and conn.ReadFrom add n to tx *)
+Definition byte_model (ops : list (N * N)) : N * N :=
+  fold_right (fun o a => if fst o =? 0 then (fst a + snd o, snd a) else (fst a, snd a + snd o)) (0, 0) ops.
+Definition bobs_model_ok (o : bobs) : bool :=
+  (fst (byte_model (b_ops o)) =? b_rx o) && (snd (byte_model (b_ops o)) =? b_tx o).
+(* the counters equal the bytes actually transferred *)
+Definition bobs_prop_ok (o : bobs) : bool := (b_rx o =? b_peer_sent o) && (b_tx o =? b_peer_got o).
+
 (* indices (from 0) of the cases on which f fails *)
 Fixpoint bad_from {A} (f : A -> bool) (i : N) (l : list A) : list N :=
   match l with
